@@ -581,27 +581,36 @@ Definition sinit (c : scfg) : sst :=
   {| ssn := []; sbymac := []; sbyip := []; snext := 1; savail := sc_avail0 c; salloc := []; sended := 0 |}.
 
 Inductive sop :=
-| SCreate (mac : N) | SAuth (n : N) (ok : bool) | SAssign (n : N) | SActivate (n : N)
-| STerminate (n : N) | SAge (d : Z) | STick (order : list N)
+| SCreate (mac : N)
+| SAuth (n : N) (ok : bool) (ctx : N)     (* ctx: 0 live, 1 already cancelled, 2 deadline already expired *)
+| SAssign (n : N) (ctx : N)
+| SActivate (n : N)
+| STerminate (n : N) (ctx : N) (relfail : bool)   (* relfail: the allocator's ReleaseIPv4 returns an error (injected) *)
+| SAge (d : Z) | STick (order : list N)
 | SRace (n r : N)        (* concurrent TerminateSession calls for n, of which r passed the existence check (oracle) *)
 | SStop.                 (* Manager.Stop *)
 
 Definition supd (x : ssess) (st ip : N) : ssess :=
   {| ss_mac := ss_mac x; ss_state := st; ss_ip := ip; ss_age := ss_age x; ss_idle := ss_idle x |}.
 
-(* one TerminateSession(n) that found the session; returns events *)
-Definition sterm (s : sst) (n : N) : option (sst * list (N * N)) :=
+(* one TerminateSession(n) that found the session; returns events.
+   The caller's context reaches only the allocator, and since commit (WithoutCancel) not even that: the
+   release runs on a context that survives the caller's cancellation, so ctx has no effect here.
+   fail: ReleaseIPv4 returned an error — the code logs it and goes on: the session is removed, the event
+   emitted, the address stays allocated in the allocator (event (7, ip); marker 1634 at the caller). *)
+Definition sterm (s : sst) (n : N) (fail : bool) : option (sst * list (N * N)) :=
   match aget n (ssn s) with
   | None => None
   | Some x =>
       let ip := ss_ip x in
       let rel := negb (ip =? 0) in
+      let done := rel && negb fail in
       Some ({| ssn := adel n (ssn s); sbymac := adel (ss_mac x) (sbymac s);
                sbyip := if rel then adel ip (sbyip s) else sbyip s; snext := snext s;
-               savail := if rel && smem ip (salloc s) then savail s ++ [ip] else savail s;
-               salloc := if rel then sdel ip (salloc s) else salloc s;
+               savail := if done && smem ip (salloc s) then savail s ++ [ip] else savail s;
+               salloc := if done then sdel ip (salloc s) else salloc s;
                sended := sended s + 1 |},
-            (if rel then [(5, ip)] else []) ++ [(6, n)])
+            (if rel then [(if fail then 7 else 5, ip)] else []) ++ [(6, n)])
   end.
 
 Definition sexpired (c : scfg) (x : ssess) : bool :=
@@ -618,14 +627,17 @@ Definition sstep (c : scfg) (s : sst) (o : sop) : sst * (N * list (N * N)) * lis
            ({| ssn := aput n {| ss_mac := mac; ss_state := 0; ss_ip := 0; ss_age := 0; ss_idle := 0 |} (ssn s);
                sbymac := aput mac n (sbymac s); sbyip := sbyip s; snext := n + 1; savail := savail s;
                salloc := salloc s; sended := sended s |}, (0, []), [])
-  | SAuth n ok =>
+  | SAuth n ok ctx =>
       match aget n (ssn s) with
-      | Some x => (setx n (supd x (if ok then 2 else ss_state x) (ss_ip x)), (0, []), [])
+      | Some x => if ctx =? 0 then (setx n (supd x (if ok then 2 else ss_state x) (ss_ip x)), (0, []), [])
+                  else (s, (1, []), [])     (* the authenticator honours the context: error, state restored *)
       | None => (s, (1, []), [])
       end
-  | SAssign n =>
+  | SAssign n ctx =>
       match aget n (ssn s) with
-      | Some x => match savail s with
+      | Some x => if negb (ctx =? 0) then (s, (1, []), [])   (* the allocator honours the context: AllocateIPv4 fails *)
+                  else
+                  match savail s with
                   | ip :: tl =>
                       ({| ssn := aput n (supd x 3 ip) (ssn s); sbymac := sbymac s; sbyip := aput ip n (sbyip s);
                           snext := snext s; savail := tl; salloc := sadd ip (salloc s); sended := sended s |}, (0, []), [])
@@ -638,9 +650,9 @@ Definition sstep (c : scfg) (s : sst) (o : sop) : sst * (N * list (N * N)) * lis
       | Some x => (setx n {| ss_mac := ss_mac x; ss_state := 4; ss_ip := ss_ip x; ss_age := ss_age x; ss_idle := 0 |}, (0, []), [])
       | None => (s, (1, []), [])
       end
-  | STerminate n =>
-      match sterm s n with
-      | Some (s', ev) => (s', (0, ev), [])
+  | STerminate n ctx relfail =>
+      match sterm s n relfail with
+      | Some (s', ev) => (s', (0, ev), if existsb (fun e => fst e =? 7) ev then [1634] else [])
       | None => (s, (1, []), [])
       end
   | SAge d =>
@@ -651,13 +663,13 @@ Definition sstep (c : scfg) (s : sst) (o : sop) : sst * (N * list (N * N)) * lis
   | STick order =>
       let exp := filter (fun n => match aget n (ssn s) with Some x => sexpired c x | None => false end)
                         (order ++ map fst (ssn s)) in
-      let '(s', ev) := fold_left (fun acc n => match sterm (fst acc) n with
+      let '(s', ev) := fold_left (fun acc n => match sterm (fst acc) n false with
                                                | Some (s', e) => (s', snd acc ++ e)
                                                | None => acc
                                                end) exp (s, []) in
       (s', (0, ev), [])
   | SRace n r =>
-      match aget n (ssn s), sterm s n with
+      match aget n (ssn s), sterm s n false with
       | Some x, Some (s', ev) =>
           (* the r-1 other callers passed the existence check too: each releases the address, updates
              the statistics and emits the terminate event again *)
